@@ -208,13 +208,18 @@ func (e *Engine) finishResults(fr *Frame, results []Result) []Result {
 		K = e.Cfg.ResultCap
 	}
 	if len(results) > K {
+		results = group(func(r Result) string {
+			return fmt.Sprintf("%p|%s|%s|%s", r.site, boolKey(r), partitionKey(r.st), shapeKeyM(r.st, false))
+		}, "site0", K)
+	}
+	if len(results) > K {
 		results = group(func(r Result) string { return fmt.Sprintf("%p|%s|%s", r.site, boolKey(r), partitionKey(r.st)) }, "site1", K)
 	}
 	if len(results) > K {
 		results = group(func(r Result) string { return fmt.Sprintf("%p|%s", r.site, boolKey(r)) }, "site2", K)
 	}
 	if len(results) > K {
-		results = group(func(r Result) string { return boolKey(r) + "|" + partitionKey(r.st) + "|" + shapeKey(r.st) }, "shape", K)
+		results = group(func(r Result) string { return boolKey(r) + "|" + partitionKey(r.st) + "|" + shapeKeyM(r.st, false) }, "shape", K)
 	}
 	if len(results) > K {
 		results = group(boolKey, "bool", K)
@@ -387,18 +392,61 @@ func (e *Engine) mergeToK(ss []*State, fr *Frame, where string) []*State {
 		pk  string
 		sts []*State
 	}
-	var cls []*cluster
-	idx := map[string]*cluster{}
-	for _, s := range live {
-		pk := partitionKey(s)
-		k := pk + "\x00" + shapeKey(s)
-		c := idx[k]
-		if c == nil {
-			c = &cluster{pk: pk}
-			idx[k] = c
-			cls = append(cls, c)
+	// states that differ only in what is known about the same input bytes (exit of a
+	// scan loop for different reasons) join without loss: their byte sets are united
+	{
+		groups := map[string][]*State{}
+		var order []string
+		for _, s := range live {
+			k := stateSigM(s, false)
+			if _, ok := groups[k]; !ok {
+				order = append(order, k)
+			}
+			groups[k] = append(groups[k], s)
 		}
-		c.sts = append(c.sts, s)
+		if len(order) < len(live) {
+			var nl []*State
+			for gi, k := range order {
+				if g := groups[k]; len(g) == 1 {
+					nl = append(nl, g[0])
+				} else {
+					nl = append(nl, e.joinAll(g, fr, fmt.Sprintf("%s.u%d", where, gi), false))
+				}
+			}
+			live = nl
+			if len(live) <= e.Cfg.K {
+				return live
+			}
+		}
+	}
+	var cls []*cluster
+	// the finest notion of "look-alike" that gives at most K clusters
+	for level := 0; level < 3; level++ {
+		cls = nil
+		idx := map[string]*cluster{}
+		for _, s := range live {
+			pk := partitionKey(s)
+			var sk string
+			switch level {
+			case 0:
+				sk = shapeKeyP(s, true, nil)
+			case 1:
+				sk = shapeKeyP(s, true, e.Pinned)
+			default:
+				sk = shapeKeyP(s, false, nil)
+			}
+			k := pk + "\x00" + sk
+			c := idx[k]
+			if c == nil {
+				c = &cluster{pk: pk}
+				idx[k] = c
+				cls = append(cls, c)
+			}
+			c.sts = append(c.sts, s)
+		}
+		if len(cls) <= e.Cfg.K {
+			break
+		}
 	}
 	total := len(live)
 	joinCl := func(ci int) {
@@ -455,11 +503,37 @@ func (e *Engine) mergeToK(ss []*State, fr *Frame, where string) []*State {
 }
 
 // shapeKey summarises the constant part of a state.
-func shapeKey(s *State) string {
+func shapeKey(s *State) string { return shapeKeyM(s, true) }
+
+func shapeKeyM(s *State, withMasks bool) string { return shapeKeyP(s, withMasks, nil) }
+
+// shapeKeyP: with entry != nil only the byte facts whose index is made of entry
+// symbols count (what is known about the bytes the step started at).
+func shapeKeyP(s *State, withMasks bool, entry map[Sym]bool) string {
 	var ks []string
 	for k, c := range s.cells {
 		if cv, ok := constOf(c.V); ok {
 			ks = append(ks, k+"="+strconv.FormatInt(cv, 10))
+		}
+	}
+	// what is known about individual input bytes is a finite fact like a constant
+	if withMasks {
+		for k, m := range s.masks {
+			if m.M.isFull() {
+				continue
+			}
+			if entry != nil {
+				ok := true
+				for _, t := range m.Idx.T {
+					if !entry[t.S] {
+						ok = false
+					}
+				}
+				if !ok {
+					continue
+				}
+			}
+			ks = append(ks, "M"+k+"="+m.M.String())
 		}
 	}
 	sort.Strings(ks)
@@ -1696,7 +1770,11 @@ func (e *Engine) forgetInvObjects(st *State) {
 	}
 }
 
-func stateSig(s *State) string {
+func stateSig(s *State) string { return stateSigM(s, true) }
+
+// stateSigM: the signature of a state, optionally without the byte masks (two
+// states that differ only in byte masks join without losing a linear fact).
+func stateSigM(s *State, withMasks bool) string {
 	var parts []string
 	for k := range s.ckeys {
 		parts = append(parts, k)
@@ -1722,7 +1800,14 @@ func stateSig(s *State) string {
 		parts = append(parts, fmt.Sprintf("L%d.%d=%d", k[0], k[1], l))
 	}
 	for k, m := range s.masks {
-		parts = append(parts, "M"+k+m.M.String())
+		if withMasks {
+			parts = append(parts, "M"+k+m.M.String())
+		} else {
+			parts = append(parts, "M"+k)
+		}
+	}
+	for r := range s.hits {
+		parts = append(parts, fmt.Sprintf("H%d", r))
 	}
 	sort.Strings(parts)
 	return strings.Join(parts, "|")
